@@ -3,6 +3,7 @@ SPECIFICATION FairSpec
 CONSTANTS
   Coords = {0, 1}
   K = 1
+  Ks = {}
   Callers = {1, 2}
   Heights = {1}
   NoCaller = 0
